@@ -55,7 +55,7 @@ class TickingTime(object):
         return getattr(self.vt, name)
 
 
-def build(sim, n, profile, version=4, max_in_flight=None, keyspace=None, **cluster_kw):
+def build(sim, n, profile, version=4, max_in_flight=None, keyspace=None, contact=0, **cluster_kw):
     """n fake nodes + a connected real Cluster/Session (pools to every node).  Returns
     (cluster, session, nodes)."""
     from cassandra.cluster import EXEC_PROFILE_DEFAULT
@@ -66,7 +66,7 @@ def build(sim, n, profile, version=4, max_in_flight=None, keyspace=None, **clust
     cc = sim.net.connection_class()
     if max_in_flight is not None:
         cc.max_in_flight = max_in_flight
-    cluster = sim.make_cluster(addrs(n)[:1], protocol_version=version, connection_class=cc,
+    cluster = sim.make_cluster([addrs(n)[contact]], protocol_version=version, connection_class=cc,
                                execution_profiles={EXEC_PROFILE_DEFAULT: profile}, **cluster_kw)
     session = sim.call(cluster.connect, keyspace, wait_for_all_pools=True)
     sim.settle()
